@@ -373,4 +373,20 @@ example : GoodOp (.addClass ['a', ' ', 'c']) := by
 /-- the value-less class attribute of the pinned tree (`<div class>`) gives no names -/
 example : (mk T0 ['d', 'i', 'v'] false [(classK, none)]).cls = [] := by decide
 
+/-! non-vacuity of C09e -/
+
+/-- `setAttribute('CLASS', ' x  y ')` on an element with classes: the list is replaced, every view follows -/
+example : ((setAttribute T0 "CLASS".toList (some " x  y ".toList)
+      (run T0 (mk T0 ['d', 'i', 'v'] false []) [.className (some ['a'])])).2).cls = [['x'], ['y']] := by decide
+example : lower "CLASS".toList = classK := by decide
+/-- a `ClassSynced` state with a style and an attribute: `className = 'p q'` rewrites the entry in place, `removeAttribute`
+    deletes it, nothing else moves -/
+def eS : El := run T0 (mk T0 ['d', 'i', 'v'] false [(classK, some ['a']), ("id".toList, some ['i'])])
+  [.sync, .styAssign (some "top: 1px".toList)]
+example : DictInv eS ∧ ClassSynced eS := ⟨(reach_inv ⟨_, _, _, _, rfl⟩).2, by unfold ClassSynced; decide⟩
+example : viewList eS = [("id".toList, some ['i']), (classK, some ['a']), (styleK, some "top: 1px".toList)] := by decide
+example : viewList (setClassName (some "p q".toList) eS)
+    = [("id".toList, some ['i']), (classK, some "p q".toList), (styleK, some "top: 1px".toList)] := by decide
+example : viewList (removeAttribute classK eS) = [("id".toList, some ['i']), (styleK, some "top: 1px".toList)] := by decide
+
 end AHP.C09
